@@ -594,6 +594,36 @@ def m_tile( ctx ):
     return res
 
 
+@rule( 'M-LIMIT', props=( 'C19', ), floor=3 )
+def m_limit( ctx ):
+    """the transfer limit is applied per emitted range: merge passes its `limit` argument through unchanged and shatter deduces the per-bank default from the address of the range it splits"""
+    res = Result( 'M-LIMIT' )
+    src = ctx.src( MODBUS )
+    mg = src.get( 'merge' ); sh = src.get( 'shatter' )
+    rebinds = [ s_ for s_ in ast.walk( mg ) if isinstance( s_, ( ast.Assign, ast.AugAssign )) and any(
+        isinstance( t, ast.Name ) and t.id == 'limit' for tg in ( s_.targets if isinstance( s_, ast.Assign ) else [ s_.target ] ) for t in ast.walk( tg )) ]
+    if rebinds:
+        res.bad( src, rebinds[0], rebinds[0], 'merge resolves the limit once for the whole sweep: ranges of another register bank (e.g. Holding after Coils) are then split with the wrong limit and may exceed their bank\'s maximum transfer' )
+    else:
+        res.ok( src, mg, 'merge never rebinds limit' )
+    calls = [ c for c in ast.walk( mg ) if is_call_to( c, 'shatter' ) ]
+    if calls and all( any( k.arg == 'limit' and dotted( k.value ) == 'limit' for k in c.keywords ) and len( c.args ) == 2
+                      and [ dotted( a ) for a in c.args ] == [ 'base', 'length' ] for c in calls ):
+        res.ok( src, calls[0], 'every emit is shatter( base, length, limit=limit )' )
+    else:
+        res.bad( src, calls[0] if calls else mg, 'shatter calls in merge', 'each accumulated range must be emitted through shatter( base, length, limit=limit )' )
+    # shatter: default deduced from its own address argument, when no limit was given
+    addr = sh.args.args[0].arg
+    dflt = [ i for i in sh.body if isinstance( i, ast.If ) and pmatch( i.test, 'not limit' ) ]
+    if dflt and addr in names_in( dflt[0] ) and [ v for v in ( try_fold( c ) for c in ast.walk( dflt[0] ) if isinstance( c, ast.Constant )) if v in ( 1968, 123 ) ]:
+        res.ok( src, dflt[0], 'shatter deduces the default limit (1968 coils/status, 123 registers) from the address it splits' )
+    elif dflt and any( is_call_to( c, 'transfer_limit' ) and c.args and dotted( c.args[0] ) == addr for c in ast.walk( dflt[0] )):
+        res.ok( src, dflt[0], 'shatter deduces the default limit from the address it splits (helper)' )
+    else:
+        res.bad( src, sh, 'shatter default limit', 'without an explicit limit, the per-bank default must be deduced from the address of the range being split' )
+    return res
+
+
 @rule( 'M-BANK', props=( 'C19', ), floor=2 )
 def m_bank( ctx ):
     """merge: the merge condition conjoins the same-bank test with the reach test; input is swept sorted"""
@@ -614,7 +644,10 @@ def m_bank( ctx ):
              and all( isinstance( x, ast.BinOp ) and isinstance( x.op, ast.FloorDiv ) and try_fold( x.right ) == 10000
                       for x in [ c.left, c.comparators[0] ] ) ]
     reach = [ c for c in conj if isinstance( c, ast.Compare ) and isinstance( c.ops[0], ( ast.Lt, ast.LtE )) and 'reach' in names_in( c ) ]
-    if len( bank ) == 1 and len( reach ) == 1:
+    extra = [ c for c in conj if c not in bank and c not in reach ]
+    if extra:
+        res.bad( src, extra[0], extra[0], 'an additional condition restricts merging: ranges of one bank that overlap or lie within reach must always merge, else the output is no longer sorted and pairwise disjoint (registers transferred twice)' )
+    elif len( bank ) == 1 and len( reach ) == 1:
         res.ok( src, t, 'merge iff same 10000-bank and within reach: ' + norm_text( t ))
     elif not bank:
         res.bad( src, t, t, 'ranges of different register banks (address // 10000) must never merge' )
